@@ -2159,7 +2159,7 @@ func keyPurityRule(w *World, r *Report, rule string) {
 		o := tr.Origins(retVals(ret)[0])
 		for c := range o.Calls {
 			n := callName(c.Common())
-			if strings.Contains(n, "Bech32") || strings.HasSuffix(n, "AccAddress.String") || strings.HasPrefix(n, "strings.") || strings.Contains(n, "Sprintf") {
+			if strings.Contains(n, "Bech32") || strings.HasSuffix(n, "AccAddress.String") || strings.HasPrefix(n, "strings.To") || strings.HasPrefix(n, "strings.Trim") {
 				pure = false
 				bad = n
 			}
